@@ -301,6 +301,18 @@ Theorem C14_transfer_roundtrip :
 Proof. exact transfer_roundtrip. Qed.
 Print Assumptions C14_transfer_roundtrip.
 
+(** a deployment (wallet.ContractDeploy) into workchain W is carried as a message
+    to (W, hash of the StateInit of code and data) with that StateInit attached,
+    bounceable, mode 3 *)
+Theorem C14_deploy_carried :
+  forall chash wc code data body amount t m,
+  (forall c h, chash c = Ok h -> length h = 32%nat) ->
+  (TlbCore.byte_len amount <= 15)%nat -> (-128 <= wc < 128)%Z ->
+  deploy_transfer chash wc (Some code) (Some data) body amount = Ok t -> internal_msg t = Ok m ->
+  exists h, chash (cell_of_ct (deploy_stateinit code data)) = Ok h /\
+    decode_transfer m = Ok (mktr amount wc (bytes_to_bits h) true body (Some (code, data)) 3).
+Proof. exact deploy_carried. Qed.
+
 (** so the message a wallet sends carries exactly the requested transfers, in
     order: extract the carried cells from the full external message, decode each *)
 Theorem C14_transfers_carried :
